@@ -9,6 +9,7 @@
 
 size_t vf_dns_k;	/* ghost index (contracts/dns.h part 2), left unconstrained */
 uint8_t vf_dns_old;	/* ghost: entry value of buffer byte vf_dns_k */
+uint16_t vf_dns_qd_old;	/* ghost: entry value of QDCOUNT */
 
 void harness(void) {
 	VF_NONDET(size_t, msgbuf_size);
